@@ -89,6 +89,23 @@ def run(chk, tier, seed):
                     chk.violations.append(("an encrypted file truncated at its last frame boundary is not rejected: " + ent, {"harness_line": l, "observed": o[:300]}))
     chk.add_eval(ntail)
     chk.cov["trailing_frame_truncations"] = ntail
+    # the encryption layer used as a stream (CryptoWriter / CryptoReader around an UNCOMPRESSED save, so that no second
+    # container shields it): multi-chunk payloads cut at every chunk boundary +-2 and at a stride
+    sl = ["X%d crypto_stream_cuts %d %d %d" % (k, n_, seed + k, 4999 if tier == "quick" else 499) for k, n_ in enumerate((10, 100000, 150000, 250000))]
+    sobs_ = C.run_harness(binary, sl, timeout=900)
+    ncuts_ = 0
+    for l in sl:
+        o = sobs_.get(l.split(" ")[0], "MISSING")
+        p_ = o.split(" ")
+        if len(p_) != 3 or not p_[0].isdigit():
+            chk.violations.append(("cutting an encrypted stream did not complete: " + o[:80], {"harness_line": l}))
+            continue
+        ncuts_ += len(p_[1])
+        if p_[2] != "-":
+            chk.violations.append(("a strict prefix of an encrypted stream (%s bytes, cut at a chunk boundary or elsewhere) %s: %s" % (p_[0], "loads to a DIFFERENT value" if "D" in p_[1] else "panics", p_[2]),
+                                   {"harness_line": l, "classes": p_[1][:400]}))
+    chk.add_eval(ncuts_)
+    chk.cov["encrypted_stream_cuts"] = ncuts_
     chk.cov["rule"] = ("encrypted saves of sampled values: every (quick: every 2nd) byte position x 3 replacement values, every truncation length, 8 wrong passwords incl. "
                        "prefixes/suffixes of the right one; multi-chunk files of incompressible data with all header, length-field and tag bytes and a strided sweep; "
                        "oracle: always an error, never a value, never a panic; frame structure compared with the CryptoWriter model in Coq")
